@@ -2167,3 +2167,52 @@ Proof. vm_compute. reflexivity. Qed.
 Lemma rs_running_le_total_after_drain tot pr s :
   reach tot pr s -> length (lb s) <= total s -> length (running_live s) <= total s.
 Proof. intros R. apply (rs_running_le_total tot pr s R). Qed.
+
+(* ------------------------------------------------------------------------------------------------ *)
+(* non-vacuity with content (QA audit 2) *)
+
+(* rs_nonabandon_running_le_total, hypothesis AND content: total = 1; call 0 (abandon_on_cancel=True) is cancelled by AnyIO
+   while its function runs and leaves (abandoned, still executing); call 1 (abandon_on_cancel=False) is then admitted and
+   its function executes.  No native cancellation anywhere.  At the end a non-abandon function IS executing and the bound
+   is tight: running_nonabandon = [1], borrowed = total = 1 - while 2 functions execute in all. *)
+Definition tight_ops : list op :=
+  [Scope 0 false; Call 0 true; Resume 0; Resume 0; ThreadStart 0; Call 1 false; Resume 1;
+   CancelCaller 0 0; Resume 0; Resume 1; ThreadStart 1].
+Example ex_nonabandon_bound_tight :
+  no_native_cancel_while_running (init 1 false) tight_ops = true /\
+  let s := final step (init 1 false) tight_ops in
+  exec s = [1; 0] /\ running_nonabandon s = [1] /\ lb s = [1] /\ total s = 1 /\
+  length (running_nonabandon s) = total s /\ length (lb s) <= total s /\
+  abandon (calls s 1) = false /\ ph (calls s 1) = PAwait 1 /\ wk s 1 = WExec 1 /\
+  abandon (calls s 0) = true /\ ph (calls s 0) = PDone DCancelled /\ wk s 0 = WExec 0.
+Proof. vm_compute. repeat split; auto. Qed.
+
+(* the same with AnyIO cancellation of the running NON-abandon call: it stays, keeps its token, the second caller waits *)
+Example ex_nonabandon_bound_tight_shielded :
+  let ops := [Scope 0 false; Call 0 false; Resume 0; Resume 0; ThreadStart 0; Call 1 false; Resume 1;
+              CancelCaller 0 0; Deliver 0] in
+  no_native_cancel_while_running (init 1 false) ops = true /\
+  let s := final step (init 1 false) ops in
+  exec s = [0] /\ running_nonabandon s = [0] /\ lb s = [0] /\ lq s = [1] /\ total s = 1 /\
+  walk (chain (calls s 0)) = true /\ ph (calls s 0) = PAwait 0.
+Proof. vm_compute. repeat split; auto. Qed.
+
+(* rs_no_grant_while_full, conjunct 2 (total' < |lb|): total 2, two functions run, a third caller queues; the total is
+   lowered to 1 (over-full: 2 borrowers); the first function finishes and its caller releases: nobody new is admitted
+   although a caller is waiting - lb' = [1] is included in lb = [1; 0]; only after the second release (no longer
+   over-full) is the waiter admitted *)
+Definition overfull_ops : list op :=
+  [Call 0 false; Resume 0; Resume 0; ThreadStart 0; Call 1 false; Resume 1; Resume 1; ThreadStart 1;
+   Call 2 false; Resume 2; SetTotal 1; ThreadFinish 0 (PVal 0)].
+Example ex_no_grant_while_overfull :
+  let s := final step (init 2 false) overfull_ops in
+  total s = 1 /\ lb s = [1; 0] /\ lq s = [2] /\ total (fst (step s (Resume 0))) < length (lb s) /\
+  let s1 := fst (step s (Resume 0)) in
+  lb s1 = [1] /\ lq s1 = [2] /\ evset (calls s1 2) = false /\ ph (calls s1 0) = PPostCk (OVal 0) /\
+  (* SetTotal itself, while over-full, admits nobody either *)
+  lb (final step (init 2 false) [Call 0 false; Resume 0; Resume 0; ThreadStart 0; Call 1 false; Resume 1; Resume 1;
+                                 ThreadStart 1; Call 2 false; Resume 2; SetTotal 1]) = [1; 0] /\
+  (* once drained to the new total the hand-over works again *)
+  let s2 := final step s1 [ThreadFinish 1 (PVal 1); Resume 1] in
+  lb s2 = [2] /\ lq s2 = [] /\ evset (calls s2 2) = true /\ length (lb s2) <= total s2.
+Proof. vm_compute. repeat split; auto. Qed.
